@@ -95,6 +95,10 @@ class C10(Oracle):
                     break
             p = pulses[-1]
             rest_any = {max(pcs.end, p.tf + fall_time(p, pcs, m)) for m in (True, False)} | expected_fall_ends(pcs)
+        if want == cur and tnew:
+            ctx.probe("retarget_same_atoms")
+            v.append(("C10/same-target-inserted", f"{name}: retargeting to the same atoms {sorted(want, key=str)} inserted a target instruction {[s.key()[:3] for s in tnew]}"))
+            return v
         if want == cur and not tnew:
             ctx.probe("retarget_same_atoms")
             if len(others) > 1 or (others and others[0].kind != "delay"):
